@@ -46,6 +46,7 @@ type Scenario struct {
 	Hist     []HistStmt     `json:"hist,omitempty"` // history with intended effects (C11/C12); Clients[0] is derived from it
 	L        *LimitCase     `json:"limit_case,omitempty"` // C08 grid point
 	K        *PinCase       `json:"pin_case,omitempty"`   // C18 key-pinning clause
+	Q        *GSelect       `json:"query,omitempty"`      // generator AST of the statement (C03/C05), used by the shrinker
 	Faults   []Fault        `json:"faults,omitempty"`
 	Schedule []int          `json:"schedule,omitempty"`
 	Topology string         `json:"topology,omitempty"`
@@ -88,6 +89,7 @@ type StmtRes struct {
 	EvFrom     int // this statement's events are h.log[EvFrom:EvTo]
 	EvTo       int
 	Completed  bool // drained to end-of-stream without error/panic
+	CacheHits  int  // ExecuteCtx.Hit after the drain
 }
 
 func (r *StmtRes) Failed() bool { return r.BuildErr != "" || r.Err != "" || r.Panic != "" || r.StepCap }
@@ -260,6 +262,7 @@ func execStmt(h *Handle, idx int, st Stmt, cfg Config) (res StmtRes) {
 		}
 	}
 	res.NDrain = len(res.Polls)
+	res.CacheHits = ctx.Hit
 	if res.Panic != "" || res.StepCap {
 		return
 	}
